@@ -15,6 +15,8 @@ TEXT = {
     "engineZ": "the in-house AST->SMT symbolic executor (pycv/wp) is part of the trusted base; guarded by canaries and a "
                "CPython differential self-test",
     "engineN": "the in-house non-commutative normaliser (pycv/opalg) is part of the trusted base; guarded by canaries",
+    "engineS": "the in-house chain-rule executor over a function's own locals (pycv/ssa.py) and sympy's rational-function arithmetic (together / expand / "
+               "reduced) are part of the trusted base; guarded by a canary (a wrong coefficient in a copy of the traced function must not verify)",
     "mpmath": "mpmath 50-digit evaluation decides signs of closed-form constants and finds refutation witnesses",
     "z3": "z3 5.1 (python API) as SMT back end", "cvc5": "cvc5 1.4 as second SMT back end",
     # calculus / algebra lemmas
